@@ -7,6 +7,7 @@ RULES = {
     "B2": "lower after take: every aggregate fetch_sub is preceded on its path by the pop/remove that took the order, and its operand derives from that owned order (not from a find/load)",
     "B3": "bounded decrements: a fetch_sub never exceeds the counted contribution of the owned order (its display/reserve, consumed/hidden_reduced, or old-new under new<old)",
     "B4": "aggregates are only touched by atomic fetch_add/fetch_sub/load inside the mutators",
+    "B6": "single hand-out: OrderQueue::pop and ::remove return the payload of their own DashMap::remove (find-then-remove would hand one order to two threads, and both would lower the aggregates); nobody else touches the map or the tickets",
     "B5": "each operation's counter deltas equal the contribution of the orders it owns (the invariant counter >= entries + in-flight is only inductive if every step is balanced)",
 }
 
@@ -29,3 +30,8 @@ def run(ctx, chk):
     LR.rule_bounded_decrements(ctx, chk, L, "B3")
     LR.rule_rmw_only(ctx, chk, L, "B4")
     LR.rule_balance_conc(ctx, chk, L, "B5")
+    from ..queue import QueueAnalysis
+    Q = QueueAnalysis(ctx)
+    Q.rule_pop(chk, "B6", "B6", "B6")
+    Q.rule_remove_find(chk, "B6")
+    Q.who_may(chk, "B6")
